@@ -96,7 +96,13 @@ impl<T: Send + Sync + 'static> Subscriber<T, AsyncLock> {
     #[must_use]
     pub async fn next_ref(&mut self) -> Option<ObservableReadGuard<'_, T, AsyncLock>> {
         // Unclear how to implement this as a named future.
+        let previously_observed_version = self.observed_version;
         poll_fn(|cx| self.poll_update(cx)).await?;
+        // `poll_update` marked the update as observed, but the value is only handed out
+        // once the lock is acquired below, which may have to wait for a writer. Undo the
+        // marking until then (`next_ref_now` redoes it), such that the update is not lost
+        // if this future gets dropped while waiting for the lock.
+        self.observed_version = previously_observed_version;
         Some(self.next_ref_now().await)
     }
 
